@@ -139,9 +139,13 @@ impl Stark<F, D> for Chain {
 trait Member: Stark<F, D> + Copy {
     /// a satisfying trace of n rows and its public inputs
     fn gen(&self, n: usize, r: &mut ChaCha8Rng) -> (Vec<Vec<F>>, Vec<F>);
-    /// a cell of a looking column (members with lookups)
-    fn lookup_cell(&self, n: usize, r: &mut ChaCha8Rng) -> (usize, usize) {
-        (r.gen_range(0..n), 0)
+    /// a cell of a looking column that its filter counts (members with lookups)
+    fn lookup_cell(&self, rows: &[Vec<F>], r: &mut ChaCha8Rng) -> (usize, usize) {
+        (r.gen_range(0..rows.len()), 0)
+    }
+    /// does a lookup column / filter of this member read the next row?
+    fn has_next(&self) -> Option<bool> {
+        None
     }
     fn describe(&self) -> Value;
 }
@@ -243,9 +247,29 @@ impl Member for Lk {
             .collect();
         (out, vec![])
     }
-    fn lookup_cell(&self, n: usize, r: &mut ChaCha8Rng) -> (usize, usize) {
-        // a cell of a looking column (column b for the members whose next-row part reads b)
-        (r.gen_range(0..n), if matches!(self.variant, 3 | 4) && r.gen_bool(0.5) { 1 } else { 0 })
+    fn lookup_cell(&self, rows: &[Vec<F>], r: &mut ChaCha8Rng) -> (usize, usize) {
+        use plonky2::field::types::PrimeField64;
+        // a cell of a looking column whose filter is on (column b: the next-row part, read from the previous row)
+        let n = rows.len();
+        let v = |i: usize, c: usize| rows[i % n][c].to_canonical_u64();
+        for _ in 0..200 {
+            let i = r.gen_range(0..n);
+            let col = if matches!(self.variant, 2 | 3 | 4) && r.gen_bool(0.5) { 1 } else { 0 };
+            let on = match (self.variant, col) {
+                (2, _) => v(i, 4) == 1,
+                (3, 0) => v(i, 4) * v(i, 5) == 1,
+                (3, _) => v(i + n - 1, 4) * v(i + n - 1, 5) == 1,
+                (4, 1) => v(i, 4) == 1,
+                _ => true,
+            };
+            if on {
+                return (i, col);
+            }
+        }
+        (0, 0)
+    }
+    fn has_next(&self) -> Option<bool> {
+        Some(self.has_next_row_column())
     }
     fn describe(&self) -> Value {
         json!({"lookup_variant": self.variant, "degree": self.d, "next_row_column": self.has_next_row_column(),
@@ -651,10 +675,16 @@ fn run_member<S: Member>(s: &Value, stark: S, selftest_all: bool) -> Vec<Value> 
             let mut cases: Vec<(SP, Value)> = vec![];
             match split_class(c).0 {
                 "none" => cases.push((honest.clone(), json!({}))),
+                // honest proofs of members without / with a next-row lookup column
+                "honest_lk_local" | "honest_lk_next" => {
+                    if stark.has_next() == Some(c == "honest_lk_next") {
+                        cases.push((honest.clone(), json!(stark.describe())));
+                    }
+                }
                 "corrupt_trace" | "corrupt_lookup" => {
                     for _ in 0..per_class {
                         let mut rows2 = rows.clone();
-                        let (i, j) = if c == "corrupt_lookup" { stark.lookup_cell(n, &mut r) } else { (r.gen_range(0..n), r.gen_range(0..rows[0].len())) };
+                        let (i, j) = if c == "corrupt_lookup" { stark.lookup_cell(&rows, &mut r) } else { (r.gen_range(0..n), r.gen_range(0..rows[0].len())) };
                         rows2[i][j] += F::from_canonical_u64(1 + if c == "corrupt_lookup" { 0 } else { r.gen_range(0..1000u64) });
                         let mut k = Knobs::default();
                         k.lenient_trim = true;
